@@ -1158,6 +1158,9 @@ class Run:
                     self.bad("C16", "teardown.early", "teardown ran before the results summary (not every job had an outcome)")
                 if any(m[0] < x[0] for m in mcs):
                     self.bad("C16", "teardown.after_flag", "teardown ran after the completion flag was set")
+                if len(x) > 8 and x[8] and self.mode not in ("cancel",):
+                    self.bad("C16", "teardown.while_batches_run", f"the teardown command ran while batches {list(x[8])} were still queued or "
+                             "running with jobs that had no outcome yet (not every job had an outcome)")
             if complete and not sc.get("local") and not mcs:
                 pass
         batches = {}
